@@ -276,6 +276,76 @@ def c15_tree_mutation_case(rng, res, batch, tag):
                 res.violations.append(("list() raises on an acyclic tree after a history of failed scans and a repair", case))
 
 
+def c15_regroup_case(rng, res, batch, tag):
+    """jobs that were already scanned in one scheduler are moved into a newly created nested scheduler (marks left by
+    earlier scans travel with the jobs): every scheduler of the tree must answer as a fresh one"""
+    n = rng.randint(2, 6)
+    edges = [(x, y) for x in range(n) for y in range(x) if rng.random() < 0.4]
+    spec = norm_spec(flat_spec(n, edges, rng.sample(range(n), n), pure=False))   # Scheduler.check_cycles() is the recursive one
+    objs = build(spec)
+    top = objs[0]
+    hist = []
+    for _ in range(rng.randint(0, 3)):
+        what = rng.choice(["check", "topo", "list"])
+        hist.append(["scan", what])
+        with contextlib.redirect_stdout(io.StringIO()):
+            if what == "check":
+                top.check_cycles()
+            elif what == "topo":
+                list(top.topological_order())
+            else:
+                top.list()
+    for rounds in range(rng.randint(1, 2)):
+        members = [j for j in top.jobs if not isinstance(j, PureScheduler)]
+        if not members:
+            break
+        G = rng.sample(members, rng.randint(1, len(members)))
+        # keep the tree closed: drop the edges that would cross the border of the new scheduler
+        for j in list(top.jobs):
+            for r in list(j.required):
+                if (j in G) != (r in G):
+                    j.required.discard(r)
+        for j in G:
+            top.remove(j)
+        new = SSched(*G, jid=len(objs), rank=50 + rounds)
+        objs.append(new)
+        top.add(new)
+        if len(G) >= 2 and rng.random() < 0.3:
+            a, b = rng.sample(G, 2)
+            a.requires(b)
+            b.requires(a)
+            hist.append(["regroup+cycle", sorted(j.jid for j in G)])
+        else:
+            hist.append(["regroup", sorted(j.jid for j in G)])
+        for q in range(rng.randint(1, 2)):
+            case = dict(kind="tree-history", spec=spec, history=list(hist), tag=tag)
+            res.evaluations += 1
+            res.nontrivial.add(("regroup", str(hist), str(sorted(edges))))
+            ok_all = True
+            for sx in [o for o in objs if isinstance(o, PureScheduler)]:
+                mem = [k.jid for k in sx.jobs]
+                E = {(x, r.jid) for x in mem for r in objs[x].required if r.jid in mem}
+                ok = acyclic(mem, E)
+                ok_all = ok_all and ok
+            enc = encode(objs)
+            obs = topo_obs(new)
+            batch.add("topo", case, "topo %s s=%d ext=" % (enc, new.jid), obs)
+            memn = [k.jid for k in new.jobs]
+            En = {(x, r.jid) for x in memn for r in objs[x].required if r.jid in memn}
+            if obs.startswith("ok") != acyclic(memn, En):
+                res.violations.append(("topological_order() of a scheduler made of already-scanned jobs: %s, but its graph is %s"
+                                       % (obs[:40], "acyclic" if acyclic(memn, En) else "cyclic"), case))
+            cc = try_call(top.check_cycles)
+            batch.add("cyclesN", case, "cyclesN %s s=0" % enc, "true" if cc == ("ok", True) else "false" if cc == ("ok", False) else str(cc))
+            if cc != ("ok", ok_all):
+                res.violations.append(("check_cycles() = %s on a tree whose schedulers are %s, after jobs were regrouped into a new nested scheduler"
+                                       % (cc, "all acyclic" if ok_all else "not all acyclic"), case))
+            if ok_all:
+                r = try_call(lambda: quiet(top.list))
+                if r[0] != "ok":
+                    res.violations.append(("list() raises on an acyclic tree after jobs were regrouped into a new nested scheduler", case))
+
+
 def place_in_tree(rng, n, edges):
     """the flat graph `edges` over n jobs placed at a random level of a small tree"""
     depth = rng.randint(1, 2)
@@ -360,6 +430,8 @@ def run_C15(tier, seed, res, drv, replay=None):
         c15_mutation_case(rng, res, batch, "mut")
     for i in range(300 if tier == "quick" else 5000):
         c15_tree_mutation_case(rng, res, batch, "treemut")
+    for i in range(300 if tier == "quick" else 5000):
+        c15_regroup_case(rng, res, batch, "regroup")
     batch.flush()
 
 
@@ -594,7 +666,10 @@ def run_C17(tier, seed, res, drv, replay=None):
         n = rng.randint(5, 12)
         p = rng.choice([0.1, 0.2, 0.4])
         edges = [(x, y) for x in range(n) for y in range(x) if rng.random() < p]
-        c17_flat_case(flat_spec(n, edges, rng.sample(range(n), n), forever=[f for f in range(n) if rng.random() < 0.2]), res, batch, "rand", rng)
+        sp = flat_spec(n, edges, rng.sample(range(n), n), forever=[f for f in range(n) if rng.random() < 0.2])
+        if i % 3 == 0:
+            sp = nestify(sp, rng)       # nodes of the graph that are nested schedulers, empty ones included
+        c17_flat_case(sp, res, batch, "rand" if i % 3 else "rand-nested", rng)
         if len(batch.items) > 20000:
             batch.flush()
     for i in range(400 if tier == "quick" else 5000):
@@ -746,6 +821,8 @@ def run_C18(tier, seed, res, drv, replay=None):
         p = rng.choice([0.15, 0.3, 0.5])
         edges = [(x, y) for x in range(n) for y in range(x) if rng.random() < p]
         spec = flat_spec(n, edges, rng.sample(range(n), n))
+        if i % 3 == 0:
+            spec = nestify(spec, rng)   # nodes of the graph that are nested schedulers, empty ones included
         alive = list(range(1, n + 1))
         ops = []
         for _ in range(rng.randint(1, 6)):
@@ -1226,6 +1303,47 @@ def dot_accepts(texts):
     return p.returncode == 0 and "syntax error" not in p.stderr, p.stderr[-300:]
 
 
+def graph_canon(g):
+    """what dotparse.parse saw, as one canonical string"""
+    A = lambda d: ",".join("%s=%s" % kv for kv in sorted(d.items()))
+    return "N[%s] C[%s] E[%s]" % (
+        ";".join("%s@%s{%s}" % (i, c, A(a)) for i, c, a in sorted(g.nodes, key=lambda x: x[0])),
+        ";".join("%s@%s{%s}" % (n, p, A(a)) for n, p, a in sorted(g.clusters, key=lambda x: x[0])),
+        ";".join("%s>%s{%s}" % (a, b, A(at)) for a, b, at in sorted(g.edges, key=lambda x: (x[0], x[1], sorted(x[2].items())))))
+
+
+def lean_parse_canon(out):
+    """the statement list printed by `ajdriver parse`, folded into the same canonical string"""
+    if not out.startswith("ok "):
+        return out
+    H = lambda h: bytes.fromhex(h).decode()
+    def AT(a):
+        return {} if a == "-" else {H(kv.split("=")[0]): H(kv.split("=")[1]) for kv in a.split(";")}
+    parts = out.split(" ")
+    stmts = parts[2].split("|") if len(parts) > 2 and parts[2] else []
+    g = dotparse.Graph()
+    stack = [None]
+    open_idx = []
+    for st in stmts:
+        f = st.split(",")
+        if f[0] == "n":
+            g.nodes.append((H(f[1]), stack[-1], AT(f[2])))
+        elif f[0] == "e":
+            g.edges.append((H(f[1]), H(f[2]), AT(f[3])))
+        elif f[0] == "o":
+            name = None if f[1] == "-" else H(f[1])
+            open_idx.append(len(g.clusters))
+            g.clusters.append([name, stack[-1], {}])
+            stack.append(name)
+        elif f[0] == "c":
+            stack.pop()
+            open_idx.pop()
+        elif f[0] == "t" and H(f[1]) == "graph" and open_idx:
+            g.clusters[open_idx[-1]][2].update(AT(f[2]))
+    g.clusters = [tuple(c) for c in g.clusters]
+    return graph_canon(g)
+
+
 def has_empty_linked(spec):
     """an empty nested scheduler reachable by the descent from a scheduler that has or is a requirement"""
     sched = set(spec["sched"])
@@ -1284,6 +1402,9 @@ def c20_case(spec, res, batch, tag, dot_texts):
         res.violations.append(("dot_format() is not valid DOT: %s" % e, case))
         return
     dot_texts.append((text, case))
+    # the model's own DOT lexer + parser (Model/DotLex, Model/DotParse: the ones `render_parses` is about) applied
+    # to the real text must accept it and see the same graph as the independent Python parser
+    batch.add("dotparse", case, "parse text=%s" % text.encode().hex(), graph_canon(g), canon=lean_parse_canon)
     ids = {j: objs[j]._sched_id for j in range(1, spec["n"]) if objs[j]._sched_id}
     # nodes <-> atomic jobs
     node_ids = [nid for nid, _, _ in g.nodes]
